@@ -132,7 +132,7 @@ pub fn run(ctx: &Ctx) -> Outcome {
             }
             // ---- (4) construction from slices of the wrong length -----------------------------------
             for ctor in [Ctor::Slices, Ctor::InnerSlice] {
-                for ivl in [0, d.iv_len - 1, d.iv_len + 1, 2 * d.iv_len, d.iv_len / 2] {
+                for ivl in (0..=2 * d.iv_len + 1).filter(|l| *l != d.iv_len) {
                     if ivl == d.iv_len {
                         continue;
                     }
@@ -148,7 +148,7 @@ pub fn run(ctx: &Ctx) -> Outcome {
                     Ok(())
                 });
                 if ctor == Ctor::Slices {
-                    for kl in [0, cfg.key_len - 1, cfg.key_len + 1, 2 * cfg.key_len] {
+                    for kl in (0..=2 * cfg.key_len + 1).filter(|l| *l != cfg.key_len) {
                         rep.case(|| {
                             let r = rec::new_bm(cfg, d, ctor, &data[..kl], &ivm);
                             ensure!(r.is_err(), format!("bad_key_length_accepted/{}-{}", d.mode, d.dir.s()), "{}::{} accepted a {}-byte key (expected {})", d.ty, ctor.s(), kl, cfg.key_len);
@@ -160,7 +160,7 @@ pub fn run(ctx: &Ctx) -> Outcome {
         }
         for d in &cfg.cores {
             for ctor in [Ctor::Slices, Ctor::InnerSlice] {
-                for ivl in [0, bs - 1, bs + 1, 2 * bs] {
+                for ivl in (0..=2 * bs + 1).filter(|l| *l != bs) {
                     rep.case(|| {
                         ensure!(rec::new_core(cfg, d, ctor, &key, &data[..ivl]).is_err(), format!("bad_iv_length_accepted/{}", d.mode), "{}::{} accepted a {}-byte IV", d.ty, ctor.s(), ivl);
                         ensure!(rec::new_stream(cfg, d, ctor, &key, &data[..ivl]).is_err(), format!("bad_iv_length_accepted/{}/stream", d.mode), "StreamCipherCoreWrapper<{}>::{} accepted a {}-byte IV", d.ty, ctor.s(), ivl);
@@ -168,7 +168,7 @@ pub fn run(ctx: &Ctx) -> Outcome {
                     });
                 }
                 if ctor == Ctor::Slices {
-                    for kl in [0, cfg.key_len - 1, cfg.key_len + 1, 2 * cfg.key_len] {
+                    for kl in (0..=2 * cfg.key_len + 1).filter(|l| *l != cfg.key_len) {
                         rep.case(|| {
                             ensure!(rec::new_core(cfg, d, ctor, &data[..kl], &iv).is_err(), format!("bad_key_length_accepted/{}", d.mode), "{}::{} accepted a {}-byte key", d.ty, ctor.s(), kl);
                             ensure!(rec::new_stream(cfg, d, ctor, &data[..kl], &iv).is_err(), format!("bad_key_length_accepted/{}/stream", d.mode), "StreamCipherCoreWrapper<{}>::{} accepted a {}-byte key", d.ty, ctor.s(), kl);
@@ -228,7 +228,7 @@ pub fn run(ctx: &Ctx) -> Outcome {
         }
         for d in &cfg.bufcfb {
             for ctor in [Ctor::Slices, Ctor::InnerSlice] {
-                for ivl in [0, bs - 1, bs + 1, 2 * bs] {
+                for ivl in (0..=2 * bs + 1).filter(|l| *l != bs) {
                     rep.case(|| {
                         ensure!(rec::new_buf(cfg, d, ctor, &key, &data[..ivl]).is_err(), format!("bad_iv_length_accepted/bufcfb-{}", d.dir.s()), "{}::{} accepted a {}-byte IV", d.ty, ctor.s(), ivl);
                         Ok(())
@@ -239,7 +239,7 @@ pub fn run(ctx: &Ctx) -> Outcome {
         for d in &cfg.cts {
             for ctor in [Ctor::Slices, Ctor::InnerSlice] {
                 if d.cbc {
-                    for ivl in [0, bs - 1, bs + 1, 2 * bs] {
+                    for ivl in (0..=2 * bs + 1).filter(|l| *l != bs) {
                         rep.case(|| {
                             let mut out = data[..bs].to_vec();
                             ensure!(rec::cts(cfg, d, ctor, false, Dir::Enc, Kind::InPlace, &key, &data[..ivl], &[], &mut out).is_err(), format!("bad_iv_length_accepted/{}", d.name), "{}::{} accepted a {}-byte IV", d.ty, ctor.s(), ivl);
@@ -248,7 +248,7 @@ pub fn run(ctx: &Ctx) -> Outcome {
                     }
                 }
                 if ctor == Ctor::Slices {
-                    for kl in [0, cfg.key_len - 1, cfg.key_len + 1, 2 * cfg.key_len] {
+                    for kl in (0..=2 * cfg.key_len + 1).filter(|l| *l != cfg.key_len) {
                         rep.case(|| {
                             let mut out = data[..bs].to_vec();
                             ensure!(rec::cts(cfg, d, ctor, false, Dir::Enc, Kind::InPlace, &data[..kl], &iv, &[], &mut out).is_err(), format!("bad_key_length_accepted/{}", d.name), "{}::{} accepted a {}-byte key", d.ty, ctor.s(), kl);
